@@ -62,11 +62,15 @@ RemoteUpdate(d, f, v) == /\ st[d] = "live" /\ f \in Known
                          /\ UNCHANGED <<st, nver, active, indexes, vpar>> /\ Log([E("remoteupdate") EXCEPT !.d = d, !.f = f, !.v = v])
 Delete(d) == /\ st[d] = "live" /\ st' = [st EXCEPT ![d] = "deleted"] /\ ncommits' = [ncommits EXCEPT ![d] = @ + 1]
              /\ UNCHANGED <<vals, nver, active, indexes, vpar>> /\ Log([E("delete") EXCEPT !.d = d])
-\* a patch derives version nver+1 from the active version, adding field nver+1; setAsDefault makes it active
-Patch(setActive) == /\ nver < MaxVer
+\* a patch derives version nver+1 from the active version, adding field nver+1; setAsDefault makes it active.
+\* retried: the patch is first attempted inside a transaction that is discarded and then repeated, in a new transaction
+\* whose context is derived from the first one's (the usual retry loop), and committed: abstractly one patch
+Patch(setActive, retried) ==
+                    /\ nver < MaxVer
                     /\ nver' = nver + 1 /\ vpar' = [vpar EXCEPT ![nver + 1] = active]
                     /\ active' = IF setActive THEN nver + 1 ELSE active
-                    /\ UNCHANGED <<st, vals, ncommits, indexes>> /\ Log([E("patch") EXCEPT !.k = IF setActive THEN 1 ELSE 0])
+                    /\ UNCHANGED <<st, vals, ncommits, indexes>>
+                    /\ Log([E("patch") EXCEPT !.k = IF setActive THEN 1 ELSE 0, !.f = IF retried THEN 1 ELSE 0])
 \* a schema patch inside an explicit transaction that is then discarded: nothing happened
 DiscardedPatch == /\ nver < MaxVer
                   /\ UNCHANGED <<st, vals, ncommits, nver, active, indexes, vpar>> /\ Log(E("discardedpatch"))
@@ -82,7 +86,7 @@ Next == /\ steps < MaxSteps
         /\ \/ \E d \in Docs, v \in 0..MaxVal : Create(d, v)
            \/ \E d \in Docs, f \in Fields, v \in 0..MaxVal : Update(d, f, v) \/ RemoteUpdate(d, f, v)
            \/ \E d \in Docs : Delete(d)
-           \/ \E b \in BOOLEAN : Patch(b)
+           \/ \E b \in BOOLEAN, r \in BOOLEAN : Patch(b, r)
            \/ \E k \in 1..MaxVer : SetActive(k)
            \/ IndexCreate(1) \/ IndexDrop(1)          \* secondary index on the base field
            \/ Restart \/ DiscardedPatch
